@@ -66,21 +66,33 @@ def const(x):
     return F.fin(z3.Q(fr.numerator, fr.denominator))
 
 
-def neg(a):
+# ---------------------------------------------------------------------------
+# Arithmetic and comparisons are *function symbols* with definitional axioms
+# (DEFS).  The discharger first tries an obligation with the symbols left
+# uninterpreted (pure congruence: sound, and enough when code and spec have the
+# same shape), then with the definitions as E-matching axioms, then with the
+# definitions expanded in place.
+def _rat(a):
+    """rational literal value of fin(c) terms, else None"""
+    try:
+        if z3.is_app(a) and a.decl().name() == "fin" and z3.is_rational_value(a.arg(0)):
+            return a.arg(0)
+    except Exception:
+        pass
+    return None
+
+
+def neg_def(a):
     return z3.If(is_fin(a), F.fin(-val(a)),
                  z3.If(is_pinf(a), NINF, z3.If(is_ninf(a), PINF, NAN)))
 
 
-def add(a, b):
+def add_def(a, b):
     return z3.If(z3.Or(is_nan(a), is_nan(b)), NAN,
                  z3.If(z3.And(is_fin(a), is_fin(b)), F.fin(val(a) + val(b)),
                        z3.If(is_fin(a), b,
                              z3.If(is_fin(b), a,
                                    z3.If(a == b, a, NAN)))))
-
-
-def sub(a, b):
-    return add(a, neg(b))
 
 
 def _sign_pos(a):
@@ -92,14 +104,14 @@ def _is_zero(a):
     return z3.And(is_fin(a), val(a) == 0)
 
 
-def mul(a, b):
+def mul_def(a, b):
     return z3.If(z3.Or(is_nan(a), is_nan(b)), NAN,
                  z3.If(z3.And(is_fin(a), is_fin(b)), F.fin(val(a) * val(b)),
                        z3.If(z3.Or(_is_zero(a), _is_zero(b)), NAN,
                              z3.If(_sign_pos(a) == _sign_pos(b), PINF, NINF))))
 
 
-def div(a, b):
+def div_def(a, b):
     """IEEE (NumPy array) division.  Scalar Python/Numba division by zero
     raises instead; the executor generates that obligation separately."""
     return z3.If(z3.Or(is_nan(a), is_nan(b)), NAN,
@@ -113,17 +125,82 @@ def div(a, b):
                                    NAN))))                               # inf / inf
 
 
-def lt(a, b):
+def lt_def(a, b):
     return z3.And(z3.Not(is_nan(a)), z3.Not(is_nan(b)),
                   z3.If(z3.And(is_fin(a), is_fin(b)), val(a) < val(b),
                         z3.If(is_ninf(a), z3.Not(is_ninf(b)),
                               z3.If(is_pinf(b), z3.Not(is_pinf(a)), False))))
 
 
-def le(a, b):
+def le_def(a, b):
     return z3.And(z3.Not(is_nan(a)), z3.Not(is_nan(b)),
                   z3.If(z3.And(is_fin(a), is_fin(b)), val(a) <= val(b),
                         z3.Or(is_ninf(a), is_pinf(b))))
+
+
+f_neg = z3.Function("xr_neg", F, F)
+f_add = z3.Function("xr_add", F, F, F)
+f_mul = z3.Function("xr_mul", F, F, F)
+f_div = z3.Function("xr_div", F, F, F)
+f_lt = z3.Function("xr_lt", F, F, z3.BoolSort())
+f_le = z3.Function("xr_le", F, F, z3.BoolSort())
+
+
+def neg(a):
+    r = _rat(a)
+    if r is not None:
+        return F.fin(z3.simplify(-r))
+    if z3.eq(a, NAN):
+        return NAN
+    if z3.eq(a, PINF):
+        return NINF
+    if z3.eq(a, NINF):
+        return PINF
+    return f_neg(a)
+
+
+def _fold(a, b, op):
+    ra, rb = _rat(a), _rat(b)
+    if ra is not None and rb is not None:
+        return F.fin(z3.simplify(op(ra, rb)))
+    return None
+
+
+def add(a, b):
+    f = _fold(a, b, lambda x, y: x + y)
+    return f if f is not None else f_add(a, b)
+
+
+def sub(a, b):
+    return add(a, neg(b))
+
+
+def mul(a, b):
+    f = _fold(a, b, lambda x, y: x * y)
+    return f if f is not None else f_mul(a, b)
+
+
+def div(a, b):
+    rb = _rat(b)
+    if rb is not None and not z3.is_true(z3.simplify(rb == 0)):
+        f = _fold(a, b, lambda x, y: x / y)
+        if f is not None:
+            return f
+    return f_div(a, b)
+
+
+def lt(a, b):
+    ra, rb = _rat(a), _rat(b)
+    if ra is not None and rb is not None:
+        return z3.simplify(ra < rb)
+    return f_lt(a, b)
+
+
+def le(a, b):
+    ra, rb = _rat(a), _rat(b)
+    if ra is not None and rb is not None:
+        return z3.simplify(ra <= rb)
+    return f_le(a, b)
 
 
 def gt(a, b):
@@ -157,28 +234,58 @@ def fmax2(a, b):
     return z3.If(gt(b, a), b, a)
 
 
+def op_defs():
+    """definitional axioms of the arithmetic symbols, as (function, bound vars, body)"""
+    a, b = z3.Consts("xr!a xr!b", F)
+    return [
+        (f_neg, [a], neg_def(a)),
+        (f_add, [a, b], add_def(a, b)),
+        (f_mul, [a, b], mul_def(a, b)),
+        (f_div, [a, b], div_def(a, b)),
+        (f_lt, [a, b], lt_def(a, b)),
+        (f_le, [a, b], le_def(a, b)),
+    ]
+
+
+def op_axioms():
+    return [z3.ForAll(vs, f(*vs) == body, patterns=[f(*vs)]) for f, vs, body in op_defs()]
+
+
+def expand_ops(t):
+    """replace every arithmetic symbol application by its definition (eager form)"""
+    pairs = []
+    for f, vs, body in op_defs():
+        # body over de Bruijn variables: Var(i) is the i-th argument
+        sub = z3.substitute(body, *[(v, z3.Var(i, F)) for i, v in enumerate(vs)])
+        pairs.append((f, sub))
+    return z3.substitute_funs(t, *pairs)
+
+
 # ---------------------------------------------------------------- math UFs
 R = z3.RealSort()
-u_sqrt = z3.Function("sqrt", R, R)
-u_atan = z3.Function("atan", R, R)
-u_atan2 = z3.Function("atan2", R, R, R)
-u_sin = z3.Function("sin", R, R)
-u_cos = z3.Function("cos", R, R)
-u_asin = z3.Function("asin", R, R)
-u_exp = z3.Function("exp", R, R)
-u_tan = z3.Function("tan", R, R)
-u_pow = z3.Function("pow", R, R, R)
-u_log = z3.Function("log", R, R)
+u_sqrt = z3.Function("xr_sqrt", R, R)
+u_atan = z3.Function("xr_atan", R, R)
+u_atan2 = z3.Function("xr_atan2", R, R, R)
+u_sin = z3.Function("xr_sin", R, R)
+u_cos = z3.Function("xr_cos", R, R)
+u_asin = z3.Function("xr_asin", R, R)
+u_exp = z3.Function("xr_exp", R, R)
+u_tan = z3.Function("xr_tan", R, R)
+u_pow = z3.Function("xr_pow", R, R, R)
+u_log = z3.Function("xr_log", R, R)
+
+u_atan2inf = z3.Function("xr_atan2inf", F, F, R)
 
 # rational enclosure of pi
 PI_LO = z3.Q(314159265358979, 100000000000000)
 PI_HI = z3.Q(314159265358980, 100000000000000)
-PI = z3.Real("pi")
+PI = z3.Real("xr_pi")
 
 
 def axioms(names):
     """Return the list of axiom formulas for the named transcendental facts."""
     x, y = z3.Reals("ax_x ax_y")
+    fa, fb = z3.Consts("ax_fa ax_fb", F)
     A = {
         "pi": [PI > PI_LO, PI < PI_HI],
         "sqrt": [z3.ForAll([x], z3.Implies(x >= 0, z3.And(u_sqrt(x) >= 0, u_sqrt(x) * u_sqrt(x) == x)),
@@ -199,7 +306,9 @@ def axioms(names):
                                          u_sin(x) >= -1, u_sin(x) <= 1, u_cos(x) >= -1, u_cos(x) <= 1),
                              patterns=[u_cos(x)])],
         "atan2_range": [z3.ForAll([y, x], z3.And(u_atan2(y, x) >= -PI, u_atan2(y, x) <= PI),
-                                  patterns=[u_atan2(y, x)])],
+                                  patterns=[u_atan2(y, x)]),
+                        z3.ForAll([fa, fb], z3.And(u_atan2inf(fa, fb) >= -PI, u_atan2inf(fa, fb) <= PI),
+                                  patterns=[u_atan2inf(fa, fb)])],
         # quadrant rules
         "atan2_quadrant": [z3.ForAll([y, x], z3.And(
             z3.Implies(z3.And(y == 0, x > 0), u_atan2(y, x) == 0),
@@ -270,7 +379,6 @@ def atan2(a, b):
                  z3.If(z3.Or(is_nan(a), is_nan(b)), NAN, F.fin(u_atan2inf(a, b))))
 
 
-u_atan2inf = z3.Function("atan2inf", F, F, R)
 
 
 def to_py(model, term):
